@@ -1,12 +1,12 @@
 SPECIFICATION Spec
 CONSTANTS
   S = 3
-  Abis <- AbisQuick
+  Abis <- AbisCov
   Cfgs <- Cfgs3
   Types <- TypesCov
   Pub = FALSE
   MaxK = 0
-  HiK = 5
+  HiK = 4
   Steps = TRUE
 INVARIANT IntExact
 INVARIANT ToPyExact
